@@ -232,10 +232,18 @@ func (x *Exec) verifyBody(fn *ssa.Function, c *Contract, res *FuncResult) {
 		rspec = x.buildReplaySpec(fr, results, out)
 	}
 	for i, e := range c.Ensures {
-		f := func() string {
+		esrc := e.Src
+		f := func() (f string) {
 			defer func() {
 				if r := recover(); r != nil {
 					if ce, ok := r.(contractError); ok {
+						if e.Tag != "" && strings.Contains(string(ce), "was executed before this point") {
+							// the clause is about a call the function no longer makes: a failing
+							// obligation (the others are still generated), not a malformed contract
+							f = "false"
+							esrc = e.Src + "  [clause cannot be evaluated against the current code: " + string(ce) + "]"
+							return
+						}
 						panic(contractError(fmt.Sprintf("%s:%d: %s", e.File, e.Line, string(ce))))
 					}
 					panic(r)
@@ -247,7 +255,7 @@ func (x *Exec) verifyBody(fn *ssa.Function, c *Contract, res *FuncResult) {
 		if e.Tag != "" {
 			name = fmt.Sprintf("%s#%s", fname, e.Tag)
 		}
-		x.addOblKF(&Obligation{Name: name, Kind: "post", Tag: e.Tag, Func: fname, Pos: fmt.Sprintf("%s:%d", shortPath(e.File), e.Line), Guard: out.guard, Formula: f, Src: e.Src, Replay: rspec}, penv)
+		x.addOblKF(&Obligation{Name: name, Kind: "post", Tag: e.Tag, Func: fname, Pos: fmt.Sprintf("%s:%d", shortPath(e.File), e.Line), Guard: out.guard, Formula: f, Src: esrc, Replay: rspec}, penv)
 		// vacuity guard for conditional property clauses `A ==> B`: some execution must reach
 		// the exit with A true, otherwise the clause says nothing (for instance because an
 		// abstraction made that path infeasible)
